@@ -67,7 +67,7 @@ def function_lookup(functions, name, operands):
       A EvalNode (or subclass) instance or None if the function was not found.
     """
     for signature in itertools.product(*(_bases(operand.dtype) for operand in operands)):
-        for func in functions[name]:
+        for func in functions.get(name, ()):
             if func.__intypes__ == list(signature):
                 return func
     return None
